@@ -209,32 +209,37 @@ class C13(Check):
     technique = ("Lean 4 proof over a hand-written executable model of rx_message and the _rx_*/_stats_*/_flow_mod_* handlers, whose dispatch tables, "
                  "message classes and constants are read off a live switch object on every run (translator with a runtime probe) and compared by `decide`; "
                  "differential correspondence through the byte-level switch connection; independent reply oracle")
-    level_text = ("Theorems (all states, all bodies, all sequences, no bound): one_reply — echo/features/get-config/barrier/each stats type/queue-get-config "
-                  "yields exactly one message, carrying the request's xid, which is the specified reply (with the state's data) or the specified error, and the state is unchanged; "
-                  "silent_kinds — set_config, echo_reply, a second hello, an accepted port_mod, packet_out and an accepted flow_mod write no reply (only asynchronous notifications); "
-                  "never_fails — no internal failure for any decodable message of the 13 types; order/stream_concat/barrier_after — the stream is the concatenation of the per-request "
-                  "groups and a barrier reply follows everything earlier, emitted in the state that holds all earlier effects; errors_spec — each invalid port/queue/command/stats "
-                  "type/vendor/action class maps to the error type and code of OpenFlow 1.0; dispatch_agrees/classes_agree/requests_handled — the model's tables equal what the "
-                  "translator reads off the live switch object now, and every controller-to-switch type of the standard has a handler. "
-                  "Over whole histories: history_answered (every request of every admissible history is answered exactly once, with its xid, groups in request order), "
-                  "history_barrier (a barrier reply follows the complete answers to everything before it), history_ident / features_after_history (datapath id, buffer count, "
-                  "capability bits and the ports' numbers and addresses reported by a features reply are those of the initial switch after any history), "
-                  "config_after_history (get-config reports the last set_config of the history).")
-    level_note = ("Proved about the model only; the model is tied to the code by (a) the `decide` obligations over regenerated data and (b) the correspondence run. "
-                  "Abstractions: matches are {all-wildcard, in_port=k}; actions are (type, output port); enqueue and output:TABLE are outside (C12) and excluded by the InScope "
-                  "hypothesis; malformed bodies are C10's; reply payload bytes beyond the compared key fields are C01's. The model follows the REPAIRED code "
-                  "(fixes D9, D10, D27, C13-1 committed; C13-2 = fixes/C13-2_buffer_unknown_error.diff: unknown / used buffer ids are answered with BAD_REQUEST/BUFFER_UNKNOWN / BUFFER_EMPTY; "
-                  "while finding C13-2 is open the sequences that name such a buffer are oracle-only).")
+    level_text = ("Theorems (all states, all bodies, all histories, no bound). one_reply — echo/features/get-config/barrier/each stats type/queue-get-config yields exactly one "
+                  "complete answer (one message, or several OFPSF_REPLY_MORE parts each fitting a message), every part with the request's xid; it is the specified reply built from "
+                  "the state at that moment (exact flow selection by match/table/out_port, current packet/byte/port/table counters) or the specified error; the state is unchanged. "
+                  "silent_kinds — set_config, echo_reply, a second hello, an accepted port_mod, packet_out and an accepted flow_mod write only asynchronous notifications. "
+                  "handled_partial/never_fails_partial/replies_carry_xid — for the modelled action vocabulary handling never fails and everything written is asynchronous or carries the "
+                  "request's xid. Ordering clause: history_answered_partial + history_barrier + history_events_partial (which use those handler facts: per-message groups in request order, "
+                  "each request answered completely before the next group starts, a barrier reply after the complete answers to everything earlier, traffic and connection-level "
+                  "rejections interleaved); order/stream_concat/barrier_after alone are only the composition law of a left fold. errors_spec — each invalid port/queue/command/stats "
+                  "type/vendor/action/buffer class maps to the error type and code of OpenFlow 1.0; rejected_answered — a message the connection rejects gets one error with ITS xid. "
+                  "history_ident/features_after_history/config_after_history — what features and get-config report after any history. dispatch_agrees/classes_agree/requests_handled — "
+                  "the model's tables equal those of the live switch object and every controller-to-switch type of the standard has a handler.")
+    level_note = ("Proved about the model only; the model is tied to the code by (a) the `decide` obligations over data read off the live switch and (b) the correspondence run. "
+                  "`_partial` theorems: the model does not cover enqueue and output:TABLE (C12) and treats packet_out data as opaque (parsing/rewriting controller-chosen bytes is C12/C15); "
+                  "never_fails_full states the unproved full claim. FlowsFit (every installed flow can be encoded in one reply part, action list <= 65435 bytes) is a hypothesis, an invariant "
+                  "of admissible histories (step_fit), and oversize_entry_fails shows it is needed. The data path is not modelled: its effect on counters/buffers is fed to the model as "
+                  "observed snapshots (Event.traffic); the theorems hold for every snapshot. Abstractions: matches are {all-wildcard, in_port=k}; actions are (type, output port, length); "
+                  "malformed bodies beyond the connection-level rejection are C10's. The model follows the REPAIRED code: D9, D10, D27, C13-1, C13-2 committed; C13-3 = "
+                  "fixes/C13-3_stats_reply_multipart.diff (a statistics body longer than a message is sent in parts). flow_mod_bad_action_defect + proposed finding C13-4: a flow_mod "
+                  "carrying an unsupported action type is installed silently.")
     trusted_base = ["model Model/SwitchReq.lean hand-written from pox/datapaths/switch.py (+ flow_table.py for the table summary); tied by the dispatch/class `decide` obligations and this correspondence run",
                     "harness/translate/dispatch_tables.py (reads the four handler tables and the class registries off a live SoftwareSwitch in a child process; ast reading of the constructor only as fallback)",
                     "harness/swnet.py byte-level node; the struct-based reply decoder in harness/c13.py"]
     assumptions = ["single-threaded datapath: one message is handled to completion before the next (cooperative tasks)",
                    "messages are well-formed encodings produced by the library's own classes (malformed input is C10)",
                    "action lists do not contain enqueue or output:TABLE (C12); flow-mod matches are all-wildcard or in_port only (match semantics are C03/C04)",
-                   "no data-plane traffic during the sequence (counters and table lookups are C12/C04)"]
+                   "data-plane traffic between the requests is an environment step: the counters and buffer occupancy it leaves are read off the real switch and handed to the model (how traffic moves them is C12/C04)"]
     rule = ("case = (switch state: port set incl. deleted ports, buffer/table capacity; 1..40 messages of the 13 controller-to-switch types and 6+unknown stats types with arbitrary "
             "xids and valid/invalid ports, tables, queues, buffers, commands, actions; mode step = one push per message, batch = whole byte stream in random chunks, unique xids, "
-            "replies paired by xid); corpus = every request kind alone and after hello, every error class, two-message orderings with barrier; "
+            "replies paired by xid); interleaved: data-plane frames and packet_outs that move port/flow/table counters with the same statistics request repeated after them, and messages the "
+            "connection itself rejects (unknown type, ill-sized / undecodable body, foreign version) at every position of a read; corpus = every request kind alone and after hello, "
+            "every error class, orderings with barrier, poll-traffic-poll sequences, rejected messages first/middle/last, an 800-flow table (multipart reply); "
             "non-trivial = at least two different reply kinds or an error were produced")
 
     def translate(self):
@@ -1104,10 +1109,20 @@ class C13(Check):
 
     def shrink_candidates(self, case):
         msgs = case["msgs"]
-        for i in range(len(msgs)):
-            c = copy.deepcopy(case); del c["msgs"][i]
+        def without(lo, hi):
+            c = copy.deepcopy(case); del c["msgs"][lo:hi]
             if c["mode"] == "batch": c["cuts"] = []
-            if c["msgs"]: yield c
+            return c
+        n = len(msgs)
+        # long histories (the pre-filled table): cut away large blocks first, single messages only once it is short
+        size = n // 2
+        while size >= max(8, n // 8):
+            for lo in range(0, n, size):
+                if 0 < n - min(size, n - lo): yield without(lo, lo + size)
+            size //= 2
+        if n <= 80:
+            for i in range(n):
+                if n > 1: yield without(i, i + 1)
         if case["mode"] == "batch":
             c = copy.deepcopy(case); c["mode"] = "step"; c.pop("cuts", None); yield c
         if case["state"] != self.STATES[0]:
